@@ -285,6 +285,46 @@ pub fn run(seed: u64, tier: &str, w: &mut dyn Write) -> usize {
         o.case(&["mds_layer"], &sv, || canon(&F::mds_layer(&st(&s))));
     }
 
+    // mds_partial_layer_fast alone, at the carry boundary of its u160 accumulator: the eleven products
+    // state[i] * W_HATS[round][i-1] are made to sum, modulo 2^128, to just below 2^128 (state[11] is solved for),
+    // and state[0] is put on either side of the value whose product with M_00 makes the low limb wrap
+    let per_round = if thorough { 40 } else { 6 };
+    for round in 0..22usize {
+        let mut made = 0;
+        let mut tries = 0;
+        while made < per_round && tries < 400 {
+            tries += 1;
+            let mut s: Vec<u64> = (0..12).map(|_| if r.below(4) == 0 { mixed_u64(&mut r, &b) } else { r.next_u64() }).collect();
+            let wh = <F as Poseidon>::FAST_PARTIAL_ROUND_W_HATS[round];
+            let mut low: u128 = 0;
+            for i in 1..11 { low = low.wrapping_add((s[i] as u128) * (wh[i - 1] as u128)); }
+            let v = u128::MAX - low;
+            let w11 = wh[10] as u128;
+            if w11 == 0 || v / w11 > u64::MAX as u128 { continue; }
+            s[11] = (v / w11) as u64;
+            let gap = v - (s[11] as u128) * w11;          // low limb after the eleven products = 2^128 - 1 - gap
+            let m00 = (<F as Poseidon>::MDS_MATRIX_CIRC[0] + <F as Poseidon>::MDS_MATRIX_DIAG[0]) as u128;
+            let thr = gap / m00 + 1;                      // smallest state[0] whose product exceeds the gap: wraps
+            if thr > u64::MAX as u128 { continue; }
+            let thr = thr as u64;
+            for s0 in [thr.saturating_sub(1), thr, thr.saturating_add(1 + r.below(1 << 20)), thr | (r.next_u64() << 1 >> 1), u64::MAX - r.below(3)] {
+                let mut a = vec![round as u64];
+                s[0] = s0;
+                a.extend(s.iter().copied());
+                let sc = s.clone();
+                o.case(&["mds_partial_fast"], &a, || canon(&F::mds_partial_layer_fast(&st(&sc), round)));
+            }
+            made += 1;
+        }
+        // and away from the boundary
+        for _ in 0..per_round {
+            let s: Vec<u64> = (0..12).map(|_| mixed_u64(&mut r, &b)).collect();
+            let mut a = vec![round as u64];
+            a.extend(s.iter().copied());
+            o.case(&["mds_partial_fast"], &a, || canon(&F::mds_partial_layer_fast(&st(&s), round)));
+        }
+    }
+
     // ---- sponge
     sponge_cases(&mut o, &mut r, &b, 40, if thorough { 12 } else { 2 });
 
